@@ -394,7 +394,7 @@ class Bytes(object):
         if self.current_quote is None:
             return False
 
-        if (c == ord(b'\n') or c == ord(b'\r')) and len(self.current_quote) == 1:
+        if (c == ord(b'\n') or c == ord(b'\r')) and len(self.current_quote) == 1 and not self.pep701:
             return False
 
         if chr(c) == self.current_quote[0]:
@@ -404,7 +404,7 @@ class Bytes(object):
 
     def _get_quote(self, c):
         for quote in self.allowed_quotes:
-            if c == ord(b'\n') or c == ord(b'\r'):
+            if not self.pep701 and (c == ord(b'\n') or c == ord(b'\r')):
                 if len(quote) == 3:
                     return quote
             elif chr(c) != quote:
@@ -429,6 +429,10 @@ class Bytes(object):
             if self.pep701 and b == ord(b'\\'):
                 # Backslash escapes are allowed in f-string expression parts from python 3.12
                 literal += '\\\\'
+            elif self.pep701 and b == ord(b'\n'):
+                literal += '\\n'
+            elif self.pep701 and b == ord(b'\r'):
+                literal += '\\r'
             elif self.pep701 and (b == 0 or b >= 128):
                 literal += '\\x{:02x}'.format(b)
             else:
@@ -445,7 +449,7 @@ class Bytes(object):
         if not self.pep701 and (b'\0' in self._b or b'\\' in self._b):
             raise ValueError('Impossible to represent a %r character in f-string expression part')
 
-        if b'\n' in self._b or b'\r' in self._b:
+        if not self.pep701 and (b'\n' in self._b or b'\r' in self._b):
             if '"""' not in self.allowed_quotes and "'''" not in self.allowed_quotes:
                 raise ValueError(
                     'Impossible to represent newline character in f-string expression part without a long quote'
